@@ -266,6 +266,17 @@ def compare_model(r, res, exc, what):
     return []
 
 
+def as_int_form(v, form):
+    """an integer argument as it comes out of numpy index arithmetic: any width / signedness that can hold it"""
+    if not form:
+        return v
+    if form.startswith('uint') and v < 0:
+        return np.int64(v)
+    if form in ('int8', 'uint8') and abs(v) > 120:
+        return np.int64(v)
+    return getattr(np, form)(v)
+
+
 def check_func(ctx, case):
     probs = []
     a = build_corr(case['a'])
@@ -368,7 +379,7 @@ def check_index(ctx, case):
                     break
             return probs
         elif m == 'roll':
-            res = a.roll(args['dt'])
+            res = a.roll(as_int_form(args['dt'], args.get('iform')))
             exp = [a.content[(t - args['dt']) % T] for t in range(T)]
             req = {'method': 'roll', 'dt': args['dt']}
         elif m == 'reverse':
@@ -377,7 +388,7 @@ def check_index(ctx, case):
             req = {'method': 'reverse'}
         elif m == 'thin':
             exp = [a.content[t] if (args['offset'] + t) % args['spacing'] == 0 else None for t in range(T)]
-            res = a.thin(args['spacing'], args['offset'])
+            res = a.thin(as_int_form(args['spacing'], args.get('iform')), as_int_form(args['offset'], args.get('iform')))
             req = {'method': 'thin', 'spacing': args['spacing'], 'offset': args['offset']}
         elif m in ('symmetric', 'anti_symmetric'):
             sg = 1 if m == 'symmetric' else -1
@@ -399,7 +410,7 @@ def check_index(ctx, case):
             if snap_obs(b) != sb:
                 probs.append(('violation', 'argument-mutated', 'T_symmetry partner'))
         elif m == 'item':
-            res = a.item(args['i'], args['j'])
+            res = a.item(as_int_form(args['i'], args.get('iform')), as_int_form(args['j'], args.get('iform')))
             exp = [None if x is None else np.asarray([x[args['i'], args['j']]]) for x in a.content]
             req = {'method': 'item', 'i': args['i'], 'j': args['j']}
         elif m == 'trace':
@@ -458,7 +469,7 @@ def check_index(ctx, case):
                 exp.append(mat if ok else None)
             # the switch in any of the forms a truth value arrives in (result of a numpy comparison, 0 / 1)
             per_arg = {'np': np.bool_(per), 'int': int(per)}.get(args.get('flag_form'), per)
-            res = a.Hankel(n, periodic=per_arg)
+            res = a.Hankel(as_int_form(n, args.get('iform')), periodic=per_arg)
             req = {'method': 'hankel', 'n': n, 'periodic': per}
         elif m == 'repr':
             pr = list(args['print_range'])
@@ -631,15 +642,16 @@ def gen_case(ctx):
             drop = rng.choice(late)
             a['share'] = [list(p_) for p_ in prs if p_ != drop]
     case = {'kind': 'index', 'm': m, 'a': a, 'args': {}}
+    iform = rng.choice([None, None, 'int64', 'uint8', 'uint64', 'int8', 'uint16', 'int32'])
     if m == 'roll':
-        case['args'] = {'dt': rng.choice([0, 1, -1, 2, T, -T, T + 1, -(T + 2), 3 * T + 1, rng.randint(-40, 40)])}
+        case['args'] = {'dt': rng.choice([0, 1, -1, 2, 3, T - 1, T, -T, T + 1, -(T + 2), 3 * T + 1, rng.randint(-40, 40)]), 'iform': iform}
     elif m == 'thin':
-        case['args'] = {'spacing': rng.choice([1, 2, 3, 4]), 'offset': rng.choice([0, 1, 2, 3, -1])}
+        case['args'] = {'spacing': rng.choice([1, 2, 3, 4]), 'offset': rng.choice([0, 1, 2, 3, -1]), 'iform': iform}
     elif m == 'T_symmetry':
         case['b'] = gen_corr(rng, T=T, N=1)
         case['args'] = {'parity': rng.choice([1, -1])}
     elif m == 'item':
-        case['args'] = {'i': rng.randrange(N), 'j': rng.randrange(N)}
+        case['args'] = {'i': rng.randrange(N), 'j': rng.randrange(N), 'iform': iform}
     elif m == 'projected':
         def vec():
             return [round(rng.uniform(-1, 1), 2) + (1.5 if rng.random() < 0.7 else -0.4) for _ in range(N)]
@@ -658,7 +670,7 @@ def gen_case(ctx):
         case['args'] = {'form': rng.choice(['corr2d', 'corr2d', 'array3d', 'array1d']),
                         'holes': [[rng.randrange(N), rng.randrange(N), rng.randrange(T)] for _ in range(rng.choice([0, 0, 1, 2]))]}
     elif m == 'hankel':
-        case['args'] = {'n': rng.choice([1, 2, 3]), 'periodic': rng.random() < 0.5, 'flag_form': rng.choice([None, 'np', 'int', 'np', 'int'])}
+        case['args'] = {'n': rng.choice([1, 2, 3]), 'periodic': rng.random() < 0.5, 'flag_form': rng.choice([None, 'np', 'int', 'np', 'int']), 'iform': iform}
     elif m == 'repr':
         case['args'] = {'print_range': [rng.randrange(T), rng.choice([None, rng.randrange(T), T - 1])]}
     return case
